@@ -516,3 +516,5 @@ PROP = Prop(
     assumptions=["basic counts (tp() etc.) are only required to have shape (); the property speaks "
                  "of rates and thresholds being plain scalars"],
 )
+
+RULE_EXTRA = ('Fortran-ordered / non-contiguous threshold, target, score and label arrays; a caller-owned work buffer overwritten in place between queries (rule rate_buf).')
